@@ -1,8 +1,8 @@
 #!/bin/sh
-# tools/evalmut.sh <seeded-dir-name> [tier]   e.g. tools/evalmut.sh C05-1 quick
+# tools/evalmut.sh <seeded-dir-name> [tier] [property whose check is run, default: the name's]   e.g. tools/evalmut.sh C05-1 quick
 # Applies seeded/<name>/patch.diff to a scratch worktree of /repo HEAD (outside /repo and /verif),
 # runs the demo without/with the patch and the property's check against the patched tree.
-name=$1; tier=${2:-quick}; pid=${name%%-*}
+name=$1; tier=${2:-quick}; pid=${3:-${name%%-*}}
 wt=/tmp/evalmut-$name
 cd /verif || exit 2
 git -C /repo worktree remove --force $wt 2>/dev/null
